@@ -362,15 +362,13 @@ func (e *c11Exec) op(op string) string {
 	return "bad-op"
 }
 
-func (C11) Exec(ops []string) []string {
+func (C11) Exec(ops []string, outs []string) {
 	e := &c11Exec{vlen: 300}
 	defer e.close()
-	outs := make([]string, len(ops))
 	for i, o := range ops {
 		o := o
 		outs[i] = core.Safe(func() string { return e.op(o) })
 	}
-	return outs
 }
 
 // Oracle: the order laws and the comparer contract checked directly on the real functions, and
